@@ -65,6 +65,8 @@ fn families(tier: Tier) -> Vec<(&'static str, Vec<String>, usize)> {
                 prod("SETRANGE k1 {r}", &[("r", &["0 \"\"", "0 Z", "2 Z", "30 Z", "-1 Z", "1 \"\""])]),
                 prod("INCRBY k1 {i}", &[("i", &["5", "-9223372036854775808", "9223372036854775807", "x", "1.5"])]),
                 prod("DECRBY k1 {i}", &[("i", &["1", "-9223372036854775808", "9223372036854775807"])]),
+                prod("SETBIT k1 {o} {b}", &[("o", &["0", "7", "8", "100", "-1", "x", "4294967296"]), ("b", &["0", "1", "2", "x"])]),
+                prod("GETBIT k1 {o}", &[("o", &["0", "7", "8", "100", "-1", "x", "4294967296"])]),
                 prod("INCRBYFLOAT k1 {f}", &[("f", &["1.5", "-1.5", "inf", "x", "1e308", "0.25", "nan"])]),
             ],
         ),
@@ -127,7 +129,7 @@ fn families(tier: Tier) -> Vec<(&'static str, Vec<String>, usize)> {
             &[
                 "LPUSH k1 a", "LPUSH k1 a b", "RPUSH k1 b", "RPUSH k1 c d", "RPUSH k2 x", "LPOP k1", "RPOP k1", "LLEN k1", "LLEN k2",
                 "RPOPLPUSH k1 k2", "RPOPLPUSH k2 k1", "RPOPLPUSH k1 k1", "LMOVE k1 k2 LEFT LEFT", "LMOVE k1 k2 LEFT RIGHT", "LMOVE k1 k2 RIGHT LEFT",
-                "LMOVE k1 k2 RIGHT RIGHT", "LMOVE k1 k1 LEFT RIGHT", "LMOVE k1 k1 RIGHT LEFT", "LMOVE k1 k2 UP LEFT", "LMOVE k1 k2 left right",
+                "LMOVE k1 k2 RIGHT RIGHT", "LMOVE k1 k1 LEFT RIGHT", "LMOVE k1 k1 RIGHT LEFT", "LMOVE k1 k1 LEFT LEFT", "LMOVE k1 k1 RIGHT RIGHT", "LMOVE k1 k2 UP LEFT", "LMOVE k1 k2 left right",
                 "DEL k1", "EXPIRE k1 100", "TTL k1", "TTL k2", "SET k2 s", "LRANGE k2 0 -1",
             ],
             vec![
@@ -494,7 +496,7 @@ fn main() {
         let ops: Vec<Argv> = alphabet.iter().map(|l| resp::line(l)).collect();
         let mut bfs = Bfs::new(ops.len(), depth);
         bfs.deadline = Some(Instant::now() + per_family_budget);
-        bfs.probe_duplicates = true;
+        bfs.probe_duplicates = args.tier == Tier::Quick; // thorough spends its budget on depth instead
         let init = Sys::new().fingerprint();
         let stats = bfs.run(&init, |hist, o| {
             let h: Vec<Argv> = hist.iter().map(|i| ops[*i as usize].clone()).collect();
